@@ -8,6 +8,8 @@ import Mathlib.Tactic.Ring
 import Mathlib.Tactic.FieldSimp
 import Mathlib.Tactic.Linarith
 import Mathlib.Tactic.Positivity
+import Mathlib.Tactic.NormNum
+import Mathlib.Analysis.SpecialFunctions.Exp
 /-
 Helper lemmas for C04: the model's recursive sums are `Finset` sums; algebra of one
 Rachford–Rice term.
@@ -81,5 +83,136 @@ theorem rrTerm_strictAnti {z K V W : α} (hz : 0 < z) (hK : 0 < K) (hK1 : K ≠ 
     · exact mul_pos (mul_pos hz hk) (sub_pos.mpr hVW)
     · exact mul_pos dV dW
   linarith
+
+/-! # Facts moved out of Props/C04.lean: definitional consequences of the model's own definitions and helper
+lemmas.  They are not counted as property obligations. -/
+
+/-! ## The dispatch table as found before the repairs a4a241f, 6fc75e3, 4a8369b (kept for the record) -/
+
+/-- non-vacuity: calls that return -/
+def exTV : Call ℚ where
+  pair := .TV
+  ncase := .one
+  twoPhase := true
+  T0 := 300
+  P0 := 101325
+  a := 350
+  b := 2/5
+  psat := 95203
+  tsat := 0
+  sol := 0
+
+def exPH : Call ℚ := { exTV with pair := .PH, ncase := .many, a := 50000, b := 7, sol := 341 }
+def exTH : Call ℚ := { exTV with pair := .TH, b := 1 }
+def exPx : Call ℚ := { exTV with pair := .Px, ncase := .many, a := 50000, b := 0, sol := 339 }
+
+/-- The code as found does NOT have the property: the single-chemical `T, V` branch
+(`_set_TV_chemical` writes `Psat(T)` into `T`) … -/
+theorem asFound_TV_one_counterexample :
+    ∃ (c : Call ℚ) (T P : ℚ), c.pair.hasT = true ∧ dispatchAsFound c = .ok (T, P) ∧ T ≠ c.a :=
+  ⟨exTV, 95203, 101325, rfl, rfl, by norm_num [exTV]⟩
+
+/-- … the single-chemical `T, H` / `T, S` branches (T is never written) … -/
+theorem asFound_TH_one_counterexample :
+    ∃ (c : Call ℚ) (T P : ℚ), c.pair.hasT = true ∧ dispatchAsFound c = .ok (T, P) ∧ T ≠ c.a :=
+  ⟨exTH, 300, 95203, rfl, rfl, by norm_num [exTH, exTV]⟩
+
+/-- … and the composition-specified pairs (`set_Tx`, `set_Ty` never write `T`; `set_Px`, `set_Py`
+never write `P`). -/
+theorem asFound_Px_counterexample :
+    ∃ (c : Call ℚ) (T P : ℚ), c.pair.hasP = true ∧ c.pair.hasT = false ∧ dispatchAsFound c = .ok (T, P) ∧ P ≠ c.a :=
+  ⟨exPx, 339, 101325, rfl, rfl, rfl, by norm_num [exPx, exTV]⟩
+
+/-- Outside those branches the code as found agrees with the repaired table. -/
+theorem asFound_eq_dispatch (c : Call α)
+    (h : ¬ (c.ncase = .one ∧ (c.pair = .TV ∨ c.pair = .TH ∨ c.pair = .TS)))
+    (hxy : c.pair ≠ .Tx ∧ c.pair ≠ .Ty ∧ c.pair ≠ .Px ∧ c.pair ≠ .Py) :
+    dispatchAsFound c = dispatch c := by
+  obtain ⟨pair, ncase, two, T0, P0, a, b, psat, tsat, sol⟩ := c
+  cases pair <;> cases ncase <;> simp_all [dispatchAsFound]
+
+
+/-- `_set_TV_chemical` / `_set_PV_chemical`: the split conserves the chemical and has vapour
+fraction `V`. -/
+theorem chemSplit_spec (mol V : α) :
+    (chemSplit mol V).1 + (chemSplit mol V).2 = mol ∧ (chemSplit mol V).2 = V * mol := by
+  simp [chemSplit]
+
+
+/-- The last step of `set_PH` / `set_PS`: moving the fraction `f` closes the balance whenever `f`
+is not clipped (and the property is linear in the moved fraction). -/
+theorem moveFraction_reproduces (H Hcur Hmove : α) (hm : Hmove ≠ 0)
+    (h0 : 0 ≤ (H - Hcur) / Hmove) (h1 : (H - Hcur) / Hmove ≤ 1) :
+    Hcur + moveFraction H Hcur Hmove * Hmove = H := by
+  unfold moveFraction
+  simp only [not_lt.mpr h0, not_lt.mpr h1, if_false]
+  field_simp
+  ring
+
+
+/-- For one chemical: the iteration evaluated `γ`, `φ` at the normalised compositions
+`x̂`, `ŷ = x̂ K_in / S` (`S = Σ x̂ K_in`), produced `K_out = c γ / φ` (`c = pcf·Psat/P`) and the exit
+test `|ln K_in − ln K_out| < tol` held.  Then the liquid fugacity `x̂ γ c` and the vapour fugacity
+`ŷ φ` (both divided by `P`) agree up to the common factor `S` within `2·tol` relative. -/
+theorem exit_residual_one (tol c γ φ xh Kin S lnKin lnKout : ℝ) (htol : 0 < tol) (htol2 : tol ≤ 1 / 2)
+    (hx : 0 < xh) (hφ : 0 < φ) (hS : 0 < S)
+    (hKin : Kin = Real.exp lnKin) (hKout : c * γ / φ = Real.exp lnKout)
+    (hexit : |lnKin - lnKout| < tol) :
+    |xh * γ * c - S * (xh * Kin / S * φ)| ≤ 2 * tol * (S * (xh * Kin / S * φ)) := by
+  have hKin0 : 0 < Kin := hKin ▸ Real.exp_pos _
+  have hg : S * (xh * Kin / S * φ) = xh * Kin * φ := by field_simp
+  have hl : xh * γ * c = xh * φ * Real.exp lnKout := by
+    rw [← hKout]; field_simp
+  rw [hg, hl, hKin]
+  set d := lnKout - lnKin with hd
+  have hexp : Real.exp lnKout = Real.exp lnKin * Real.exp d := by
+    rw [← Real.exp_add]; congr 1; ring
+  have hdabs : |d| < tol := by rw [hd, abs_sub_comm]; exact hexit
+  have hbase : 0 < xh * Real.exp lnKin * φ := mul_pos (mul_pos hx (Real.exp_pos _)) hφ
+  -- |e^d − 1| ≤ 2 tol
+  have hdl := (abs_lt.mp hdabs).1
+  have hdu := (abs_lt.mp hdabs).2
+  have hlow : 1 - tol ≤ Real.exp d := by
+    have := Real.add_one_le_exp d
+    linarith
+  have hup : Real.exp d ≤ 1 + 2 * tol := by
+    have h1 : Real.exp d ≤ Real.exp tol := Real.exp_le_exp.mpr hdu.le
+    have h2 : Real.exp tol < 1 / (1 - tol) :=
+      Real.exp_bound_div_one_sub_of_interval' htol (by linarith)
+    have h3 : 1 / (1 - tol) ≤ 1 + 2 * tol := by
+      rw [div_le_iff₀ (by linarith)]
+      nlinarith
+    linarith
+  have key : |Real.exp d - 1| ≤ 2 * tol := by
+    rw [abs_le]; constructor <;> linarith
+  have : xh * φ * (Real.exp lnKin * Real.exp d) - xh * Real.exp lnKin * φ
+      = (xh * Real.exp lnKin * φ) * (Real.exp d - 1) := by ring
+  rw [hexp, this, abs_mul, abs_of_pos hbase]
+  calc xh * Real.exp lnKin * φ * |Real.exp d - 1| ≤ xh * Real.exp lnKin * φ * (2 * tol) :=
+        mul_le_mul_of_nonneg_left key hbase.le
+    _ = 2 * tol * (xh * Real.exp lnKin * φ) := by ring
+
+
+theorem setupF_scale {n : Nat} (k : α) (mol : Fin n → α) (Fl Fh : α) :
+    setupF (fun i => k * mol i) (k * Fl) (k * Fh) = k * setupF mol Fl Fh := by
+  simp only [setupF, sumF_mul_left]; ring
+
+
+theorem writeBack1_scale (k : α) (hk : 0 < k) (F V xh K mol : α) :
+    writeBack1 (k * F) V xh K (k * mol) = k * writeBack1 F V xh K mol := by
+  unfold writeBack1
+  have e : k * F * V * xh * K = k * (F * V * xh * K) := by ring
+  simp only [e, mul_lt_mul_iff_right₀ hk]
+  have z : ∀ t : α, k * t < 0 ↔ t < 0 := fun t => by
+    constructor
+    · intro h; by_contra h'; exact absurd h (not_lt.mpr (mul_nonneg hk.le (not_lt.mp h')))
+    · intro h; exact mul_neg_of_pos_of_neg hk h
+  split <;> simp only [z] <;> split <;> simp
+
+
+theorem chemSplit_scale (k mol V : α) :
+    chemSplit (k * mol) V = (k * (chemSplit mol V).1, k * (chemSplit mol V).2) := by
+  simp only [chemSplit, Prod.mk.injEq]; constructor <;> ring
+
 
 end ThermoVerif.Flash
